@@ -158,14 +158,17 @@ theorem C03_foreign_ack_inert (s : State) (remote : Remote) (mcLocal : Bool) (w 
     (hcode : w.code = 0) (ht : w.mtype = .ack ∨ w.mtype = .rst)
     (hno : findExchange s remote w.mid = none) :
     recv s remote mcLocal w = (s, []) := by
-  have h1 : isDup s remote w = false := by simp [isDup, isRequest, hcode]
-  have h2 : isRequest w.code = false := by simp [isRequest, hcode]
-  have h3 : (w.mtype == MType.ack || w.mtype == MType.rst) = true := by
-    rcases ht with h | h <;> simp [h]
+  have h1 : isDup s remote w = false := by simp [isDup, dedupable, isRequest, hcode]
+  have h2 : dedupable w = false := by simp [dedupable, isRequest, hcode]
+  have h3 : fitsReply w = true := by
+    rcases ht with h | h <;> simp [fitsReply, h, hcode]
   have h4 : (w.mtype == MType.con) = false := by
     rcases ht with h | h <;> simp [h]
   have h5 : isRequest 0 = false := by decide
-  simp [recv, h1, h2, h3, removeExchange, hno, recvCode, hcode, h4, h5]
+  have h6 : (w.mtype == MType.ack || w.mtype == MType.rst) = true := by
+    rcases ht with h | h <;> simp [h]
+  have h6' : w.mtype = MType.ack ∨ w.mtype = MType.rst := ht
+  simp [recv, h1, h2, h3, removeExchange, hno, recvCode, hcode, h4, h5, h6']
 
 -- non-vacuity ------------------------------------------------------------------------------------
 
